@@ -505,3 +505,44 @@ func fill(s *schema.Schema, t schema.Type, v *V, parse func(t schema.Type, lit s
 		}
 	}
 }
+
+// FillZeros puts the zero value into every required record field that is absent (what a Go struct holds after a
+// decode that did not see the field).
+func FillZeros(s *schema.Schema, t schema.Type, v *V) {
+	if v == nil {
+		return
+	}
+	switch {
+	case t.Prim != "":
+		return
+	case t.Array != nil:
+		for _, x := range v.Arr {
+			FillZeros(s, *t.Array, x)
+		}
+		return
+	case t.Map != nil:
+		for _, x := range v.Ent {
+			FillZeros(s, *t.Map, x)
+		}
+		return
+	}
+	n := s.Lookup(*t.Ref)
+	switch n.Kind {
+	case "record", "complexkey":
+		for _, f := range s.AllFields(n) {
+			if x, ok := v.Flds[f.Name]; ok {
+				FillZeros(s, f.Type, x)
+			} else if f.Required() {
+				v.Flds[f.Name] = Zero(s, f.Type)
+			}
+		}
+	case "union":
+		if v.Mem != "" {
+			for _, m := range n.Members {
+				if m.Alias == v.Mem {
+					FillZeros(s, m.Type, v.Val)
+				}
+			}
+		}
+	}
+}
